@@ -11,6 +11,7 @@ from concurrent.futures import ProcessPoolExecutor, wait, FIRST_COMPLETED
 from concurrent.futures.process import BrokenProcessPool
 
 VERIF = os.path.dirname(os.path.dirname(os.path.abspath(__file__)))
+OUT = os.environ.get('VERIF_OUT_DIR') or VERIF      # where evidence/ and replays/ are written (self-tests redirect it)
 REPO = os.environ.get('LARK_REPO', '/repo')
 M64 = (1 << 64) - 1
 
@@ -365,9 +366,9 @@ def load_known():
 
 # ----------------------------------------------------------------------------------------------- replay files
 def write_replay(check, seed, idx, plan, decisions, violation, note=''):
-    os.makedirs(os.path.join(VERIF, 'replays'), exist_ok=True)
+    os.makedirs(os.path.join(OUT, 'replays'), exist_ok=True)
     name = '%s-%d-%s.json' % (check.ID, seed, ('e%d' % -idx) if idx < 0 else str(idx))
-    path = os.path.join(VERIF, 'replays', name)
+    path = os.path.join(OUT, 'replays', name)
     doc = {'property': check.ID, 'kind': violation['kind'], 'verif_seed': seed, 'run_index': idx,
            'lark_tree_digest': lark_tree_digest(), 'plan': plan, 'decisions': decisions,
            'expected_violation': violation, 'note': note}
@@ -403,7 +404,7 @@ def confirm_in_fresh_interpreter(check, path):
 
 # ----------------------------------------------------------------------------------------------- evidence
 def write_evidence(check, tier, seed, agg, n_violations, extra=None, canary=None):
-    os.makedirs(os.path.join(VERIF, 'evidence'), exist_ok=True)
+    os.makedirs(os.path.join(OUT, 'evidence'), exist_ok=True)
     wall = max(agg.wall, 1e-6)
     cov = {
         'evaluations': agg.runs,
@@ -430,7 +431,7 @@ def write_evidence(check, tier, seed, agg, n_violations, extra=None, canary=None
         cov.update(extra)
     doc = {'property_id': check.ID, 'tier': tier, 'seed': seed, 'level': check.LEVEL, 'coverage': cov,
            'assumptions': check.ASSUMPTIONS, 'wall_s': round(agg.wall, 2), 'violations': n_violations}
-    path = os.path.join(VERIF, 'evidence', check.ID + '.json')
+    path = os.path.join(OUT, 'evidence', check.ID + '.json')
     tmp = path + '.tmp'
     with open(tmp, 'w') as f:
         json.dump(doc, f, indent=1, sort_keys=True, default=repr)
